@@ -28,6 +28,8 @@ type Env struct {
 	bound       map[string]envVar
 	depth       int
 	loop          *loopInfo // loop whose invariant is being evaluated
+	inOld         bool
+	live          *Env // the environment outside old()
 	paramsAtEntry bool                 // in ensures: parameter names denote entry values, other locals their final values
 	fvOverride  map[string]freeVarInfo // free variables of a callee closure, bound at a call / go site
 	facts       *[]*Term // type facts of every heap value read while evaluating (always true of a well-typed heap)
@@ -131,6 +133,12 @@ func (e *Env) lookupLocal(name string) (tv, bool) {
 	fr := e.fr
 	if fr == nil {
 		return tv{}, false
+	}
+	if e.inOld && e.live != nil {
+		// a local variable inside old(): its current value (locals are not part of the heap)
+		sub := *e.live
+		sub.paramsAtEntry = true
+		return sub.lookupLocal(name)
 	}
 	if name == "rangeindex" && e.loop != nil {
 		// the hidden index of the range loop whose invariant is being evaluated
@@ -728,7 +736,11 @@ func (e *Env) callExpr(x *ECall) tv {
 		}
 		sub := *e
 		sub.st = e.old
-		sub.fr = nil // parameters denote entry values inside old()
+		sub.paramsAtEntry = true // parameters denote entry values inside old(); other locals keep their current values
+		sub.inOld = true
+		if !e.inOld {
+			sub.live = e
+		}
 		return sub.eval(x.Args[0])
 	case "len":
 		r := e.eval(x.Args[0])
@@ -1106,6 +1118,27 @@ func (p *Program) parseType(s string, pkgPath string) types.Type {
 		if tn, ok := obj.(*types.TypeName); ok {
 			return tn.Type()
 		}
+	}
+	if i := strings.Index(s, "["); i > 0 && strings.HasSuffix(s, "]") {
+		// instantiated generic: Name[Arg, ...]
+		gen := p.parseType(s[:i], pkgPath)
+		named, ok := gen.(*types.Named)
+		if !ok {
+			return nil
+		}
+		var targs []types.Type
+		for _, a := range splitTop(s[i+1:len(s)-1], ',') {
+			t := p.parseType(a, pkgPath)
+			if t == nil {
+				return nil
+			}
+			targs = append(targs, t)
+		}
+		inst, err := types.Instantiate(nil, named, targs, false)
+		if err != nil {
+			return nil
+		}
+		return inst
 	}
 	// qualified: path.Name or pkgname.Name
 	if i := strings.LastIndex(s, "."); i >= 0 {
